@@ -34,7 +34,7 @@ static uint64_t fingerprint(const OpResult& o, std::string* text = nullptr)
 
 static PlanOp gen_any_op(Rng& rng, bool thorough)
 {
-    std::vector<std::string> pk = keys_for({ "G1", "G2", "G3", "G4", "G5", "G6", "G7", "G8", "G9", "G10", "G11", "G12", "T1" });
+    std::vector<std::string> pk = keys_for({ "G1", "G2", "G3", "G4", "G5", "G6", "G7", "G8", "G9", "G10", "G11", "G12", "G13", "T1" });
     std::vector<std::string> rk = regex_keys();
     uint64_t k = rng.below(100);
     PlanOp op;
@@ -78,6 +78,9 @@ static PlanOp gen_any_op(Rng& rng, bool thorough)
     else add_byte_faults(op, rng, rng.range(1, 2), m);
     if (rng.chance(2, 5)) op.api = API_CONTEXT_PARSE;
     if (m->g.custom_lexer && rng.chance(1, 5)) op.lex_fail_call = int64_t(rng.below(op.toks.size() + 1));
+    // a call that leaves by exception (failing allocation inside the library or inside a functor): what it leaves
+    // behind must not reach the next call of the same thread
+    if (rng.chance(1, 8)) op.alloc_fail_at = int64_t(rng.below(12));
     return op;
 }
 
@@ -248,7 +251,7 @@ static std::vector<Violation> case_c15(const Plan& p, CaseCtx& cx)
             }
             // 4. context confinement
             int64_t ctx_reds = 0; for (const auto& r : o.rec.reds) if (r.ctx == 2) ++ctx_reds;
-            if (o.rec.ctx_foreign || o.rec.ctx_touches != ctx_reds || (o.op.api == API_CONTEXT_PARSE && o.out.ctx_touches != int(ctx_reds)))
+            if (o.rec.ctx_foreign || (o.out.exc == 0 && (o.rec.ctx_touches != ctx_reds || (o.op.api == API_CONTEXT_PARSE && o.out.ctx_touches != int(ctx_reds)))))
             {
                 vs.push_back(make_violation("C15", "context_not_confined", who + ": a contextual functor received another call's context, or the context was touched " +
                     std::to_string(o.rec.ctx_touches) + "x for " + std::to_string(ctx_reds) + " contextual reductions", p));
